@@ -26,7 +26,7 @@
     C38_export_err_*       when Export fails, and only then
     C38_reachable_inv      the invariants the above need hold in every reachable state
 -/
-import Influx.Lemmas.BackupTrace4
+import Influx.Lemmas.BackupSeries
 import Influx.Spec.C38
 
 namespace Influx.Props.C38
@@ -300,31 +300,48 @@ theorem C38_tombstone_name_skipped :
 
 /-! ### the statement checker on the model's own traces -/
 
-/-- **C38_holdsOn (partial)**: on every trace of the model — any sequence of writes,
-    range deletes, snapshots, compactions, mtime changes, backups, exports, restores
-    and imports — the statement checker `Spec.C38` (the one the check evaluates on the
-    REAL engine's answers) reports nothing but the four known kinds of failure
-    (`Sig.known`: tombstones lost by restore, whole-block exports, the two Export
-    errors): never a wrong restore without tombstone file, a missing incremental
-    file, a point missing from an export, an exported point outside the overlapping
-    blocks, an unexplained Export error.
-    Hypothesis `SeriesAlong`: after every step, "no tombstone file ⇒ every block key
-    is listed in the series index" (decidable; compared with the real index on every
-    run; not yet proved an invariant of deletes — see notes/C38.md). -/
-theorem C38_holdsOn_partial (ops : List Op) (hs : SeriesAlong State.init ops) :
+/-- **C38_holdsOn_partial** (unconditional, "partial" = modulo the known findings): on
+    EVERY trace of the model — any sequence of writes, range deletes, snapshots,
+    compactions, mtime changes, backups, exports, restores and imports — the statement
+    checker `Spec.C38` (the one the check evaluates on the REAL engine's answers)
+    reports nothing but the four known kinds of failure (`Sig.known`: tombstones lost
+    by restore, whole-block exports, the two Export errors): never a wrong restore
+    without a tombstone file, a missing incremental file, a point missing from an
+    export, an exported point outside the overlapping blocks, an unexplained Export
+    error, a restored series the source did not list.  What is missing for the full
+    statement is exactly what is false of the code (`C38_full_fails`,
+    `C38_export_full_fails`). -/
+theorem C38_holdsOn_partial (ops : List Op) :
     Spec.C38.holdsModuloKnown (run State.init ops) = true := by
   unfold Spec.C38.holdsModuloKnown Spec.C38.failures
   rw [List.all_eq_true]
-  exact failures_known ops State.init [] Shard.Inv_empty Linked.nil hs
+  exact failures_known ops State.init [] Shard.Inv_empty Linked.nil
+    (seriesAlong_all ops State.init Shard.Inv_empty Shard.Inv2_empty)
+
+/-- the series index of the model: in every reachable state each key of a file is
+    listed, or all its points in that file are tombstoned (`indirectIndex.DeleteRange`
+    only drops a key whose tombstones cover its whole range — `gone_allTombstoned`) -/
+theorem C38_series_inv (ops : List Op) (st : State) (hi : st.src.Inv) (h : st.src.Inv2) :
+    ∀ st', (ops.foldl (fun s op => (step s op).1) st) = st' → st'.src.Inv2 := by
+  induction ops generalizing st with
+  | nil => intro st' h'; subst h'; exact h
+  | cons op ops ih => intro st' h'; exact ih _ (step_Inv st op hi) (step_Inv2 st op hi h) st' h'
+
+/-- **C38_holdsOn**: on every history WITHOUT range deletes and exports — any mix of
+    writes (overlapping rewrites included), cache snapshots, full compactions, mtime
+    changes, full and incremental backups, restores and imports — the statement
+    holds of the model outright: the checker reports no failure at all.  (With
+    deletes or exports the statement is false of the code: `C38_full_fails`,
+    `C38_export_full_fails`; what then still holds is `C38_holdsOn_partial`.) -/
+theorem C38_holdsOn (ops : List Op) (hops : ∀ op ∈ ops, op.clean = true) :
+    Spec.C38.holdsOn (run State.init ops) = true := by
+  unfold Spec.C38.holdsOn Spec.C38.failures
+  rw [failures_clean ops State.init [] Shard.Inv_empty Linked.nil Shard.Clean_empty
+    (fun _ h => by simp at h) hops]
+  rfl
 
 -- non-vacuity of the hypotheses used above
-example : SeriesAlong State.init
-    [.write 0 1 1 3 100, .snap, .delete [0] 2 2, .backup "a" none, .restore ["a"], .compact,
-     .backup "b" none, .restore ["b"], .export "e" 1 2, .importA ["e"]] := by
-  simp only [SeriesAlong]; decide
-example : exportWitness.Inv := Shard.Inv_flush _ (Shard.Inv_write _ Shard.Inv_empty _ _ _ _ _)
-example : ∀ f ∈ exportWitness.files, f.tombs = [] := by decide
-example : ∃ ar, (exportWitness.export 3 5).2 = .ok ar := ⟨_, rfl⟩
-example : (restored exportWitness).abs 0 4 = some 103 := by decide
+example : ∀ op ∈ [Op.write 0 1 1 3 100, .snap, .write 0 2 1 2 7, .backup "a" none, .restore ["a"], .age 5,
+    .write 1 0 1 1 1, .compact, .backup "i" (some 5), .importA ["a"]], op.clean = true := by decide
 
 end Influx.Props.C38
